@@ -5,22 +5,23 @@ CONSTANTS
   InitSucc = 2
   Thr = 1
   Penalty = 99
-  PickTimes = 3
+  PickTimes = 2
   LagScale = 1
   MixOK <- MixSmall
   Root <- ISqrtSmall
-  Advs = {1, 3}
-  LagVals = {0, 1, 2, 3, 4}
+  Advs = {3}
+  LagVals = {0, 3}
+  RootVals = {1, 2}
   TokIds = {1, 2}
   N = 3
   T0 = 3
-  MaxNow = 7
-  MaxOps = 6
-  Procs = {1, 2}
+  MaxNow = 6
+  MaxOps = 5
+  Procs = {1}
   Conc = FALSE
   Variant = "code"
   Emit = FALSE
-INVARIANTS IConservation INonNegative IZeroAtRest Envelope IRanges LockOK OneLogger
+INVARIANTS IConservation INonNegative IZeroAtRest Envelope IRanges LockOK OneLogger IReqConservation IDrawsLaw
 PROPERTY AbsSpec
 VIEW IView
 CHECK_DEADLOCK FALSE
